@@ -20,6 +20,50 @@ CLAIMS = {
     ),
 }
 
+
+_T = "Held on the executions observed (counts in the evidence file), not a proof."
+CLAIMS.update({
+    "C02": ("reference-model monitor per part, per body byte position and per SIMD back end",
+            "Runtime monitoring: the distance reported by the real crate is compared with the literal reference formula for every header byte position x all 256x256 value pairs, for all 256x256 byte pairs at every body position (and all 65 536 values of adjacent byte pairs) through every compiled back end (dispatch, pseudo-SIMD 32/64, SSE2, SSE4.1, AVX2) called directly via hook H4, and for millions of seeded whole pairs through the public API. " + _T,
+            "Trusts the ~40-line distance model in oracle.rs (itself checked against the C08 laws) and the H4 wrappers; whole-hash pairs are sampled, per-term domains are enumerated.", "DESIGN.md §3 C02"),
+    "C03": ("history-vs-single-shot monitor (differential law) + reference model, with internal-state diagnostic",
+            "Runtime monitoring: seeded histories of update pieces (tiny pieces dominate), interleaved finalize calls and clone-and-continue forks are executed on the real generator; processed_len and all 32 finalize results of the main line and every fork are compared with a fresh single-shot generator, again after identical continuations, and byte-by-byte feeding is compared with the reference model; all 35 (tail fill x piece size class) transitions must be seen. " + _T,
+            "Sampled histories; the single-shot generator of the same build is the oracle (plus the reference model on a subset).", "DESIGN.md §3 C03"),
+    "C04": ("round-trip law + codec model over every hex-table configuration",
+            "Runtime monitoring: for seeded values and all 256 values at every byte position, every formatting route is compared with the canonical text model and parsed back through every parse entry point and prefix mode; random-case / optional-prefix spellings must re-format canonically; run in every hex encode/decode table configuration incl. hex-simd and the 'unsafe' feature. " + _T,
+            "Trusts the 60-line codec model; values are sampled except the per-position enumeration.", "DESIGN.md §3 C04"),
+    "C05": ("acceptance monitor against the codec model; panic capture",
+            "Runtime monitoring: every position of accepted strings x all 256 byte values x 3 prefix modes x 3 entry points, every length 0..=2*LEN+2, prefix look-alikes and seeded byte soups are parsed by the real crate under catch_unwind; acceptance, value and error kind are compared with the codec model (set of applicable errors; wrong length must be the length error), in every digit-decoder configuration, release and debug-assertion builds. " + _T,
+            "Trusts the codec model; byte soups are sampled, single-byte corruptions are enumerated on seeded base strings.", "DESIGN.md §3 C05"),
+    "C06": ("layout law + codec model",
+            "Runtime monitoring: seeded byte arrays, all 256 values at every position and slices of every length 0..=2N go through both TryFrom impls; store round trip, all accessors incl. quartile(i) for every i, hex == nibble-swapped header + body, clear_checksum and the documented out-of-range panic are checked. " + _T,
+            "Trusts the field layout stated in the property; sampled values.", "DESIGN.md §3 C06"),
+    "C08": ("algebraic-law monitor (no oracle), antipodal construction for attainment",
+            "Runtime monitoring: reflexivity, identity, symmetry, bound, mode relation and the clear_checksum relation are checked on millions of seeded pairs (random, neighbours, equal, antipodal) per variant and mode; the antipodal construction must attain max_distance, and max_distance must equal the documented sum. " + _T,
+            "Sampled pairs; laws need no oracle.", "DESIGN.md §3 C08"),
+    "C09": ("exhaustive enumeration of all 2^32 lengths against a linear-scan model",
+            "Runtime monitoring with complete enumeration: all 2^32 lengths go through new()/try_from (both tiers) and are compared with an incremental linear scan over an independently typed table (acceptance, code, monotonicity, membership in range()); all 256 codes are checked for validity/range/tiling; generated hashes carry code(n) at every table edge. The input space of the stated quantifier is covered completely; the table itself is cross-checked with TLSH's closed form at range midpoints.",
+            "Trusts the independently typed table (validated by the closed form l_capturing at all 170 midpoints and by the repository's KATs).", "DESIGN.md §3 C09"),
+    "C10": ("lattice-law monitor over all 32 option settings + published validity classification",
+            "Runtime monitoring: for threshold-biased inputs and injected states around MAX, all 32 option settings are evaluated and every comparable pair of the permissiveness order is checked (success stays the same success), length errors are compared with DataLengthValidity, quarter implies half, and the generator's published constants are probed behaviourally. " + _T,
+            "The published DataLengthValidity is the oracle, as the property states; sampled inputs.", "DESIGN.md §3 C10"),
+    "C11": ("reference model continued from injected states; real multi-GiB streams in the thorough tier",
+            "Runtime monitoring: histories start from injected states 0..64 bytes before the 4 224 281 216-byte and 2^32-byte marks and feed pieces that end on, start on and cross the marks (incl. one 70 MB piece crossing both); after every piece processed_len, the TooLargeInput gate and finalize results are compared with the model; debug builds catch counter overflow; the thorough tier feeds real 4.2 GB streams and one single >4 GiB slice. " + _T,
+            "Trusts hook H2 (validated against real streams in the thorough tier) and the reference model.", "DESIGN.md §3 C11"),
+    "C12": ("scripted fault-injecting reader vs buffer hash",
+            "Runtime monitoring with fault injection: scripted readers (short reads of 1..5 bytes, random sizes, Interrupted before/between/after reads, six kinds of hard errors, early EOF, streams above 1 MiB) drive hash_stream_for for all five variants; the result must equal hash_buf of the delivered bytes or Err(IOError(kind)); files of boundary sizes and a missing path are hashed. " + _T,
+            "hash_buf of the same build is the oracle (C01 ties it to the reference); sampled scripts.", "DESIGN.md §3 C12"),
+    "C13": ("helper vs parse-then-compare (law) + codec and distance models",
+            "Runtime monitoring: string pairs from the full (left kind x right kind) grid of {accepted, wrong length, bad prefix, bad character, strict-invalid} are compared through compare_with::<T> against parse-both-then-compare (side and error kind) and against the models. " + _T,
+            "The crate's parser is the oracle for error kinds (C05 ties it to the model).", "DESIGN.md §3 C13"),
+    "C14": ("canary-buffer monitor + codec model",
+            "Runtime monitoring: every buffer length 0..=N+64 (N+4096 thorough) x 3 forms x 3 prior contents; the buffer is an inner slice with guard bytes on both sides; gate, written prefix, untouched remainder and guards are checked in every encoder configuration incl. hex-simd. " + _T,
+            "Sampled hash values; all lengths near N enumerated.", "DESIGN.md §3 C14"),
+    "C15": ("strict = lenient model + gates, gate table enumerated; generated hashes monitored",
+            "Runtime monitoring in strict-parser builds: the C05 text corpus and C06 byte corpus against the codec model with the two gates, all 256 length codes x 256 checksum bytes exhaustively (text and binary, all entry points), and every generated hash (all options) checked for validity and strict round trip; the validity of generated hashes is also monitored in non-strict builds. " + _T,
+            "Trusts the codec model with gates.", "DESIGN.md §3 C15"),
+})
+
 NOT_YET = "check not built yet in this round (work in progress; see DESIGN.md §3)"
 
 
